@@ -369,13 +369,15 @@ def _pick_style(rng):
     return "mixed"
 
 
-def gen_case(rng):
+def gen_case(rng, big=False):
     preset = _pick_preset(rng)
-    ncols = rng.choice([1, 1, 2, 3]) if "fw" not in preset else rng.choice([1, 1, 2])
+    ncols = rng.choice([1, 1, 2, 3]) if "fw" not in preset else rng.choice([1, 1, 2] if big else [1])
     names = rng.sample(COLNAMES, ncols)
     styles = [_pick_style(rng) for _ in range(ncols)]
     cols = [gen_column(rng, s) for s in styles]
     n = min(len(c) for c in cols)
+    if "fw" in preset and not big:
+        n = min(n, 12)
     cols = [c[:n] for c in cols]
     case = {"preset": preset, "columns": [[nm, c] for nm, c in zip(names, cols)], "styles": styles}
     if rng.random() < 0.5:
@@ -416,6 +418,28 @@ def cell_text(c):
 
 
 # ---------------------------------------------------------------------------
+
+def enc_str(s):
+    """ASCII strings travel as one numeral (1 c1 .. ck in base 256, see TransformTables.decode_str)"""
+    if s and all(0 < ord(ch) < 256 for ch in s) or s == "":
+        n = 1
+        for ch in s:
+            n = n * 256 + ord(ch)
+        return "decode_str %d" % n
+    return vlib.strlit(s)
+
+
+def enc_idx(idx):
+    n = 1
+    for i in idx:
+        assert 0 <= i < 65536
+        n = n * 65536 + i
+    return n
+
+
+def enc_list(ss):
+    return "[" + "; ".join(enc_str(s) for s in ss) + "]"
+
 
 def tables_python(tr):
     """python-side encoding of the translated tables, same prefix code as TransformTables.expr_code"""
@@ -513,9 +537,9 @@ def check(run, replay):
         cases = [replay["case"]]
     else:
         cases = load_corpus("C12")
-        n = 150 if run.tier == "quick" else 1500
+        n = 130 if run.tier == "quick" else 1500
         for _ in range(n):
-            cases.append(gen_case(run.rng))
+            cases.append(gen_case(run.rng, big=(run.tier == "thorough")))
         if run.tier == "thorough":
             cases.extend(exhaustive_cases())
     res = vlib.run_impl("impl_c12.py", {"cases": cases})["results"]
@@ -535,22 +559,29 @@ def check(run, replay):
                 continue
             cand = {col + k for k in coll_names}
             obs = [nm for nm in new_names if nm in cand]
-            parts = []
+            tbl = []
+            ix = {}
+            pats = []
+            pix = {}
+            which = []
             for strs in rend:
-                tbl = []
-                ix = {}
                 idx = []
                 for s in strs:
                     if s not in ix:
                         ix[s] = len(tbl)
                         tbl.append(s)
                     idx.append(ix[s])
-                parts.append("expand %s %s%%nat" % (vlib.strlist(tbl), vlib.nlist(idx)))
+                key = tuple(idx)
+                if key not in pix:      # identical rendered columns (frequent in the fw family) travel once
+                    pix[key] = len(pats)
+                    pats.append("expandN tbl %s" % vlib.nlist(idx))
+                which.append(pix[key])
             exprs.append(
-                "let rend := [%s] in (C12_check (%s, %s, rend) %s, map keep_row rend, "
+                "let tbl := %s in let pats := [%s] in let rend := map (fun i => nth (N.to_nat i) pats []) %s in "
+                "(C12_check (%s, %s, rend) %s, map keep_row rend, "
                 "map (fun s => option_map (fun q => (Qnum q, Zpos (Qden q))) (parse_cell s)) %s)"
-                % ("; ".join(parts), vlib.strlit(c["preset"]), vlib.strlit(col), vlib.strlist(obs),
-                   vlib.strlist([cell_text(x) for x in cells])))
+                % (enc_list(tbl), "; ".join(pats), vlib.nlist(which), vlib.strlit(c["preset"]), vlib.strlit(col),
+                   vlib.strlist(obs), enc_list([cell_text(x) for x in cells])))
             keys.append((i, col))
     vals = vlib.coq_eval("C12", HEADER, exprs, shard=24 if run.tier == "quick" else 40, jobs=12)
     model_sel = dict(zip(presets, vals[:len(presets)]))
